@@ -343,7 +343,11 @@ class Run:
               "violations": len(self.violations), "known_findings": [f["id"] for f in self.known],
               "gen_changed": self.gen_changed}
         if not self.cov["samples"]: self.cov["samples"] = ["(no samples recorded)"]
-        json.dump(ev, open(os.path.join(ROOT, "evidence", self.prop + ".json"), "w"), indent=1)
+        # VERIF_EVIDENCE_DIR: only tools/seedrun.py sets it, so that runs against a seeded change do not
+        # overwrite the evidence of the real tree
+        evdir = os.environ.get("VERIF_EVIDENCE_DIR") or os.path.join(ROOT, "evidence")
+        os.makedirs(evdir, exist_ok=True)
+        json.dump(ev, open(os.path.join(evdir, self.prop + ".json"), "w"), indent=1)
         shutil.rmtree(self.scratch, ignore_errors=True)
         return rc
 
